@@ -41,8 +41,18 @@ def gen_cases(tier, seed):
         r = vlib.case_rng(seed, PID, i)
         single = r.random() < 0.6
         d = gdiff.gen_diff(r, nsec=1 if single else r.randint(2, 3), log=r.random() < 0.5)
+        # git exports GIT_PREFIX (the user's directory relative to the repository root) when it starts delta; with
+        # --relative-paths the paths of headers and of diff-stat lines are rewritten relative to it
+        prefix = r.choice([None, None, None, "", "src/", "dir/", "a/b/"])
+        if d["pre"]:
+            # the diff-stat block names the files of this diff
+            names = [s_["new"] if s_["new"] != "/dev/null" else s_["old"] for s_ in d["sections"]]
+            w = max(len(x) for x in names)
+            stat = [" %s | %d %s" % (x.ljust(w), r.randint(1, 40), r.choice(["+", "++--", "+++++-----", "-"])) for x in names]
+            d["pre"] = [l for l in d["pre"] if " | " not in l and "file changed" not in l and "files changed" not in l]
+            d["pre"] += stat + [" %d files changed, 3 insertions(+), 2 deletions(-)" % len(names), ""]
         cases.append({"diff": d, "mode": r.choice(MODES), "fmt": r.choice(FILE_FMTS), "transform": r.choice(TRANSFORMS), "single": single,
-                      "relative": r.random() < 0.15, "coloured": r.random() < 0.4, "seed": i})
+                      "relative": r.random() < (0.15 if prefix is None else 0.8), "coloured": r.random() < 0.4, "seed": i, "git_prefix": prefix})
     return cases
 
 
@@ -84,7 +94,7 @@ def main(tier, replay=None):
     vlib.standard_proof_obligations(chk, "PropC19", gen_names=["vte"])
     cases = [json.load(open(replay))["case"]] if replay else gen_cases(tier, chk.seed)
     chk.rule = ("generated diffs / logs x 10 modes (unified, side-by-side, line numbers, narrow widths, wrapping off) x 5 file-link "
-                "templates x file-transformation x relative-paths; non-trivial = at least one link emitted")
+                "templates x file-transformation x relative-paths x GIT_PREFIX (unset, empty, three sub-directories), logs with a diff-stat block naming the diff's files; non-trivial = at least one link emitted")
     cwd = vlib.empty_cwd()
 
     def args_of(c, links):
@@ -101,7 +111,8 @@ def main(tier, replay=None):
 
     def work(c):
         inp = ("\n".join(input_lines(c)) + "\n").encode()
-        return vlib.run_delta(args_of(c, True), stdin=inp), vlib.run_delta(args_of(c, False), stdin=inp)
+        env = {"GIT_PREFIX": c["git_prefix"]} if c.get("git_prefix") is not None else None
+        return vlib.run_delta(args_of(c, True), stdin=inp, env_extra=env), vlib.run_delta(args_of(c, False), stdin=inp, env_extra=env)
 
     with ThreadPoolExecutor(max_workers=vlib.NCPU) as ex:
         res = list(ex.map(work, cases))
@@ -111,10 +122,12 @@ def main(tier, replay=None):
         chk.case((tuple(lines), tuple(c["mode"]), c["fmt"], c["transform"], c["relative"]), nlinks > 0,
                  {"mode": c["mode"], "fmt": c["fmt"], "transform": c["transform"], "links": nlinks // 2})
         chk.count("mode:" + " ".join(c["mode"]))
+        chk.count("git_prefix:" + repr(c.get("git_prefix")) + (" relative-paths" if c["relative"] else ""))
         if a[0] != 0 or b[0] != 0:
             chk.count("crashed-not-observed")
             continue
         why = []
+        why_known = []
         stripped = term.strip_osc8(a[1])
         if stripped != b[1]:
             ra, rb = stripped.split(b"\n"), b[1].split(b"\n")
@@ -135,6 +148,7 @@ def main(tier, replay=None):
             for p in (s["old"], s["new"]):
                 if p != "/dev/null":
                     valid_paths.add(os.path.normpath(os.path.join(cwd, p)))
+        rows_text = [row.text() for row in term.decode(a[1])]
         for (i, url, text) in link_runs(a[1]):
             if url.startswith("https://example.com/repo/commit/"):
                 h = url[len("https://example.com/repo/commit/"):]
@@ -147,7 +161,18 @@ def main(tier, replay=None):
                 continue
             path = m.group("path")
             if path not in valid_paths:
-                why.append(f"row {i}: file link path {path!r} is not the absolute path of a file of this diff ({sorted(valid_paths)[:3]})")
+                gp = c.get("git_prefix")
+                # sections without ---/+++ lines whose name is pre-filled from the diff line (mode-only sections are
+                # repaired and not part of the class)
+                misjoined = {os.path.normpath(os.path.join(cwd, gp, p_)) for s_ in secs if s_["kind"] in ("empty", "bin", "bin2", "binadd")
+                             for p_ in (s_["old"], s_["new"]) if p_ != "/dev/null"} if gp else set()
+                stat_row = " | " in rows_text[i] if i < len(rows_text) else False
+                if c["relative"] and gp and not stat_row and (path in misjoined or (path == os.path.normpath(os.path.join(cwd, gp)) and any(s_["kind"] == "bin2" for s_ in secs))):
+                    # known finding F38: a name taken from the `diff --git` / `Binary files` line is not made relative,
+                    # yet joined to the user's directory
+                    why_known.append(f"row {i}: file link path {path!r}: the repository-relative name joined to the user's directory {gp!r}")
+                else:
+                    why.append(f"row {i}: file link path {path!r} is not the absolute path of a file of this diff ({sorted(valid_paths)[:3]})")
             elif c["single"] and len(valid_paths) >= 1:
                 pass
             if "{line}" in fmt and text.strip().isdigit():
@@ -155,6 +180,9 @@ def main(tier, replay=None):
                     why.append(f"row {i}: the link of line number {text.strip()!r} points at line {m.group('line')!r}")
         if why:
             chk.violation({"property": PID, "why": "; ".join(why[:3]), "case": c, "args": args_of(c, True), "input": "\n".join(lines)[:3000]})
+        if why_known:
+            chk.violation({"property": PID, "why": "; ".join(why_known[:3]), "case": c, "args": args_of(c, True), "input": "\n".join(lines)[:3000],
+                           "finding_class": "relative-paths: name of a section without ---/+++ lines joined to the user's directory"})
     chk.assumptions = ["working directory of delta = an empty directory outside any repository; absolute path = cwd/path",
                        "link text/targets are read from the decoded cells' link attribute (independent terminal model)"]
     return chk.finish()
